@@ -21,11 +21,12 @@ func init() {
 func rupTest(w *World) *ssa.Function {
 	var cands []*ssa.Function
 	for _, fn := range w.Fns {
-		if w.PkgName(fn) != "explain" || fn.Signature.Recv() != nil || fn.Parent() != nil {
+		if w.PkgName(fn) != "explain" || fn.Parent() != nil {
 			continue
 		}
-		ps, rs := fn.Signature.Params(), fn.Signature.Results()
-		if ps.Len() == 2 && rs.Len() == 1 && typeShort(ps.At(0).Type()) == "*explain.Problem" && typeShort(ps.At(1).Type()) == "[]int" && typeShort(rs.At(0).Type()) == "bool" {
+		// a function (pb *Problem, clause []int) bool, or the same as a method of *Problem
+		if len(fn.Params) == 2 && fn.Signature.Results().Len() == 1 && typeShort(fn.Params[0].Type()) == "*explain.Problem" &&
+			typeShort(fn.Params[1].Type()) == "[]int" && typeShort(fn.Signature.Results().At(0).Type()) == "bool" {
 			cands = append(cands, fn)
 		}
 	}
@@ -35,15 +36,94 @@ func rupTest(w *World) *ssa.Function {
 	return nil
 }
 
-// certCheckers: functions of package explain that call the RUP test.
+// rupWrapper describes a helper that parses / prepares a line, runs the RUP test on it and hands back the outcome:
+// `func (pb *Problem) checkFields(fields []string) (clause []int, proven bool, err error)`.
+type rupWrapper struct {
+	boolIdx, clauseIdx int
+}
+
+// rupWrappers: functions of package explain without a loop that call the RUP test once and return, at a boolean
+// result position, that call's value or the constant false, and at a []int position the clause tested (or nil).
+func rupWrappers(w *World, rup *ssa.Function) map[*ssa.Function]rupWrapper {
+	out := map[*ssa.Function]rupWrapper{}
+	for _, fn := range w.Fns {
+		if w.PkgName(fn) != "explain" || fn == rup || len(fn.Blocks) == 0 || len(loopHeaders(fn)) > 0 {
+			continue
+		}
+		var rc *ssa.Call
+		for _, ci := range callsIn(fn) {
+			if c, ok := ci.(*ssa.Call); ok && w.staticCalleeIs(c, rup) {
+				rc = c
+			}
+		}
+		if rc == nil {
+			continue
+		}
+		res := fn.Signature.Results()
+		bi, ci := -1, -1
+		for i := 0; i < res.Len(); i++ {
+			okB, okC := typeShort(res.At(i).Type()) == "bool", typeShort(res.At(i).Type()) == "[]int"
+			allInstrs(fn, func(ins ssa.Instruction) {
+				ret, isRet := ins.(*ssa.Return)
+				if !isRet || i >= len(ret.Results) {
+					return
+				}
+				v := ret.Results[i]
+				if okB {
+					if k, isK := v.(*ssa.Const); !(v == ssa.Value(rc) || (isK && k.Value != nil && k.Value.String() == "false")) {
+						okB = false
+					}
+				}
+				if okC && !(v == rc.Call.Args[len(rc.Call.Args)-1] || isNilConst(v)) {
+					okC = false
+				}
+			})
+			if okB {
+				bi = i
+			}
+			if okC {
+				ci = i
+			}
+		}
+		if bi >= 0 && ci >= 0 {
+			out[fn] = rupWrapper{bi, ci}
+		}
+	}
+	return out
+}
+
+// rupOutcome: cond is the outcome of the RUP test of clause x: the call itself, or the boolean result of a wrapper
+// whose clause result is x.
+func rupOutcome(w *World, rup *ssa.Function, wraps map[*ssa.Function]rupWrapper, cond, x ssa.Value) bool {
+	if c, isCall := cond.(*ssa.Call); isCall && w.staticCalleeIs(c, rup) {
+		return c.Call.Args[len(c.Call.Args)-1] == x
+	}
+	if ex, isEx := cond.(*ssa.Extract); isEx {
+		if c, isCall := ex.Tuple.(*ssa.Call); isCall {
+			if wr, ok := wraps[c.Call.StaticCallee()]; ok && ex.Index == wr.boolIdx {
+				if xe, isXE := x.(*ssa.Extract); isXE && xe.Tuple == ex.Tuple && xe.Index == wr.clauseIdx {
+					return true
+				}
+			}
+		}
+	}
+	return false
+}
+
+// certCheckers: functions of package explain that call the RUP test (directly or through a wrapper), wrappers excluded.
 func certCheckers(w *World, rup *ssa.Function) []*ssa.Function {
+	wraps := rupWrappers(w, rup)
 	var out []*ssa.Function
 	for _, fn := range w.Fns {
 		if w.PkgName(fn) != "explain" {
 			continue
 		}
+		if _, isW := wraps[fn]; isW {
+			continue
+		}
 		for _, ci := range callsIn(fn) {
-			if w.staticCalleeIs(ci, rup) {
+			_, viaW := wraps[ci.Common().StaticCallee()]
+			if w.staticCalleeIs(ci, rup) || viaW {
 				out = append(out, fn)
 				break
 			}
@@ -104,12 +184,9 @@ func ruleR8_1(w *World, r *Report) {
 				continue
 			}
 			ok := false
+			wraps := rupWrappers(w, rup)
 			for _, ec := range dominatingConds(gs.Store.Block()) {
-				c, isCall := ec.Cond.(*ssa.Call)
-				if !isCall || !w.staticCalleeIs(c, rup) {
-					continue
-				}
-				if ec.True && len(c.Call.Args) == 2 && c.Call.Args[1] == x {
+				if ec.True && rupOutcome(w, rup, wraps, ec.Cond, x) {
 					ok = true
 				}
 			}
